@@ -14,7 +14,7 @@ PID = "C04"
 RULE = (
     "cases = a timing configuration from the finite family (ANNOUNCE_TTL and SUBSCRIBE_TTL in 2..10 s, cyclic-offer and "
     "refresh periods strictly below them, 0..3 repetitions, small initial / request-response / collection delays) or the "
-    "infinite family (both TTLs 0xFFFFFF, no refresh, cyclic offers on), drawn uniform fractions, and a script of 0..8 "
+    "infinite family (both TTLs 0xFFFFFF, no refresh, cyclic offers on), given to both stacks and the service instance as one Timings object or as three objects whose role-foreign parameters differ (low: TTL 1 / period 0.25, high: 1000 / 300), drawn uniform fractions, and a script of 0..8 "
     "disturbances (graceful stop/start, crash/restart of either stack, open/close of a fault window in which every "
     "datagram is independently dropped, duplicated or delayed) placed by delay or relative to the pending timers of either "
     "stack (-4RES, -RES/4, +RES/4, +4RES, halfway), on IPv4 or IPv6 addresses; both stacks run the unmodified library on one virtual-time loop and "
@@ -66,7 +66,8 @@ def _case(draw, max_steps=8):
     for _ in range(draw(st.integers(0, max_steps))):
         steps.append({"op": draw(st.sampled_from(ops)), "when": draw(when_st)})
     return {"fam": fam, "tm": tm, "fr": draw(st.lists(st.sampled_from([0.0, 0.5, 1.0]), min_size=1, max_size=3)), "steps": steps,
-            "faults": draw(st.lists(fault_act, min_size=1, max_size=8)), "v6": draw(st.sampled_from([False, False, True]))}
+            "faults": draw(st.lists(fault_act, min_size=1, max_size=8)), "v6": draw(st.sampled_from([False, False, True])),
+            "decoy": draw(st.sampled_from([0, 0, 1, 1, 2]))}
 
 
 def strategy(tier):
@@ -144,7 +145,7 @@ def fixed_cases(tier):
 
 
 class Stack:
-    def __init__(self, net, role, tm):
+    def __init__(self, net, role, tm, tm_inst=None):
         self.net, self.role = net, role
         self.addr = net.cfg[role]
         self.log = []
@@ -155,7 +156,7 @@ class Stack:
         self.started = False
         self.sent_any = False
         if role == "O":
-            self.instance = sd.ServiceInstance(cfg.Service(*SVC, eventgroups=frozenset({1})), ServerRec(net.sim, self.log, "O"), self.prot.announcer, tm)
+            self.instance = sd.ServiceInstance(cfg.Service(*SVC, eventgroups=frozenset({1})), ServerRec(net.sim, self.log, "O"), self.prot.announcer, tm_inst or tm)
             self.prot.announcer.announce_service(self.instance)
         else:
             self.prot.discovery.find_subscribe_eventgroup(cfg.Eventgroup(0x7000, 0xFFFF, 0xFF, 1, net.cfg["wsock"], hdr.L4Protocols.UDP))
@@ -242,15 +243,32 @@ def run_case(case):
     feats = collections.Counter()
     with Sim() as sim:
         install_random(case.get("fr") or [0.5])
-        tm = timings(INITIAL_DELAY_MIN=0, INITIAL_DELAY_MAX=t["imax"], REQUEST_RESPONSE_DELAY_MIN=0, REQUEST_RESPONSE_DELAY_MAX=t["rmax"],
-                     REPETITIONS_MAX=t["reps"], REPETITIONS_BASE_DELAY=t["base"], CYCLIC_OFFER_DELAY=t["cyc"], FIND_TTL=3,
-                     ANNOUNCE_TTL=t["attl"], SUBSCRIBE_TTL=t["sttl"], SUBSCRIBE_REFRESH_INTERVAL=t["refresh"], SEND_COLLECTION_TIMEOUT=t["coll"])
+        def mk(**over):
+            kw = dict(INITIAL_DELAY_MIN=0, INITIAL_DELAY_MAX=t["imax"], REQUEST_RESPONSE_DELAY_MIN=0, REQUEST_RESPONSE_DELAY_MAX=t["rmax"],
+                      REPETITIONS_MAX=t["reps"], REPETITIONS_BASE_DELAY=t["base"], CYCLIC_OFFER_DELAY=t["cyc"], FIND_TTL=3,
+                      ANNOUNCE_TTL=t["attl"], SUBSCRIBE_TTL=t["sttl"], SUBSCRIBE_REFRESH_INTERVAL=t["refresh"], SEND_COLLECTION_TIMEOUT=t["coll"])
+            kw.update(over)
+            return timings(**kw)
+
+        tm = mk()
+        decoy = case.get("decoy") or 0
+        if decoy:
+            # separate Timings objects for the offering stack, its service instance and the watching stack (the API takes
+            # one per protocol object and one per ServiceInstance).  The parameters that govern a role are the case's;
+            # the ones that belong to the *other* roles - an offering stack's subscribe TTL, a watcher's announce TTL, a
+            # protocol object's announce TTL when the instance has its own - get unrelated, self-consistent values.
+            ttl_, per_ = (1, 0.25) if decoy == 1 else (1000, 300.0)
+            offer_decoy = dict(ANNOUNCE_TTL=ttl_, CYCLIC_OFFER_DELAY=per_)
+            sub_decoy = dict(SUBSCRIBE_TTL=ttl_, SUBSCRIBE_REFRESH_INTERVAL=per_)
+            tms = {"O": mk(**offer_decoy, **sub_decoy), "I": mk(**sub_decoy), "W": mk(**offer_decoy)}
+        else:
+            tms = {"O": tm, "I": tm, "W": tm}
         v6 = bool(case.get("v6"))
         O_ADDR, W_ADDR, SUBKEY = NETS[v6]["O"], NETS[v6]["W"], subkey(v6)
         net = Net(sim, case.get("faults"), v6)
         st_ = {}
         for role in "OW":
-            st_[role] = Stack(net, role, tm)
+            st_[role] = Stack(net, role, tms[role], tms["I"])
             net.stacks[st_[role].addr] = st_[role]
             st_[role].start()
         exists = {"O": True, "W": True}
@@ -291,7 +309,7 @@ def run_case(case):
             elif kind == "restart":
                 if exists[role]:
                     return
-                new = Stack(net, role, tm)
+                new = Stack(net, role, tms[role], tms["I"])
                 st_[role] = new
                 net.stacks[new.addr] = new
                 exists[role] = True
